@@ -197,6 +197,9 @@ SvcBlock(n) ==
     /\ UNCHANGED <<top, B, nh, kc, acc, nadv, nrst, okstep>>
 
 \* network.go AddSignature (through OnPayload of a Vote): v = [h, idx, k, ch, cr]
+VoteErr(n, v) ==
+    /\ acc[n].ok
+    /\ LET ir0 == GetInc(n, v.h) IN v.idx < 0 \/ v.idx >= Len(ir0.sv) \/ (ir0.known /\ ~Verify(v, ir0.sv[v.idx + 1], v.h))
 TakeVote(n, v) ==
     /\ UNCHANGED okstep
     /\ IF ~acc[n].ok
